@@ -718,9 +718,11 @@ func svgTree(doc string, dropRemovable bool) (*svgNode, error) {
 			}
 			t := e.Data
 			if e.Kind == 'T' {
-				if x, err := xmlExpand(e.Data, nil, false); err == nil {
-					t = x
+				x, err := xmlExpand(e.Data, nil, false)
+				if err != nil {
+					return nil, fmt.Errorf("character data %q: %v", core.Trunc(e.Data, 60), err)
 				}
+				t = x
 			}
 			stack[len(stack)-1].text += t
 		}
@@ -765,8 +767,9 @@ func svgCompare(in, out *svgNode, path string, o svgOpts, depth int) string {
 			return fmt.Sprintf("%s: attribute %s=%q appeared", here, a.Name, core.Trunc(out.vals[a.Name], 60))
 		}
 	}
-	// character data (style/script content is C11's subject)
-	if in.name != "style" && in.name != "script" {
+	// character data (what a registered style minifier does to it is C11's subject; none is registered here,
+	// so style sheets pass through like any text)
+	{
 		if collapseWS(strings.TrimSpace(in.text)) != collapseWS(strings.TrimSpace(out.text)) {
 			return fmt.Sprintf("%s: text changed: %q -> %q", here, core.Trunc(in.text, 80), core.Trunc(out.text, 80))
 		}
@@ -875,7 +878,7 @@ func genSVGDoc(r *core.Rand) string {
 	}
 	elem = func(depth int) {
 		ws()
-		switch k := r.Intn(14); {
+		switch k := r.Intn(15); {
 		case k == 0 && depth < 3:
 			name := "g"
 			if svgPrefix && r.Chance(1, 2) {
@@ -924,6 +927,8 @@ func genSVGDoc(r *core.Rand) string {
 			b.WriteString(r.Pick([]string{"<ink:namedview id=\"nv\" ink:zoom=\"1.0\"/>", "<ink:guide><ink:p>1</ink:p></ink:guide>"}))
 		case k == 10:
 			b.WriteString("<defs><linearGradient id=\"g1\" x1=\"0%\" x2=\"100.0%\"><stop offset=\"0\" stop-color=\"#FFFFFF\"/><stop offset=\"1.0\" stop-color=\"black\" stop-opacity=\".50\"/></linearGradient></defs>")
+		case k == 13:
+			b.WriteString("<style>" + r.Pick([]string{"a:after{content:\"&#38;\"}", "b[title=\"&#60;x\"]{fill:red}", "rect{fill:#F00}", ".c > .d { stroke : blue }", "t:after{content:\"&amp;&lt;\"}", "<![CDATA[ a > b { fill : red } ]]>"}) + "</style>")
 		case k == 11:
 			b.WriteString("<a xlink:href=\"http://example.com/?a=1&amp;b=2\" xlink:title=\"t\"><rect width=\"1\" height=\"1\"/></a>")
 		case k == 12:
